@@ -976,6 +976,19 @@ def _slice_contains(it, key, raw, args):
     return False
 
 
+@model('Vec::dedup')
+def _vec_dedup(it, key, raw, args):
+    """removes consecutive repeated elements (PartialEq of the element type; symbolic equalities fork)"""
+    v = deref(args[0])
+    out = []
+    for c in v.cells:
+        if out and it.branch(values_eq(it, out[-1].v, c.v)):
+            continue
+        out.append(c)
+    v.cells[:] = out
+    return UNIT
+
+
 @model('impl#[T]::split_at')
 def _slice_split_at(it, key, raw, args):
     sl = as_slice(args[0])
